@@ -36,6 +36,8 @@ pub struct World {
     pub catchup: Option<(u32, u64)>,
     /// The current step delivers an undecodable block_added notification.
     pub step_malformed_notification: bool,
+    /// Steps executed since the fault-free end phase began.
+    pub steps_since_quiesce: u64,
     /// Undecodable notifications written to the current lifetime so far.
     pub malformed_notifications_sent: u64,
     /// Kinds of the operation executed in the current step.
